@@ -27,6 +27,27 @@ Check C07_incomparable :
     spec_eq feq it a b = false /\ spec_pcmp fpcmp it re a b = None.
 Print Assumptions C07_incomparable.
 
+(* "hence <, <=, >, >= are false and != is true": the five provided operator methods of std (std_lt .. std_ne,
+   defined in Proofs_ord.v exactly as core::cmp defines them from partial_cmp / eq; the macro emits none of them),
+   on operands of which at least one is incomparable - also when a value is compared with itself. *)
+Theorem C07_operators :
+  forall (fval : Type) (feq : fval -> fval -> bool) (fpcmp : fval -> fval -> option comparison)
+         (it : item) (re : rust_enum) (a b : value fval),
+    incomparable_value it a = true \/ incomparable_value it b = true ->
+    std_lt (spec_pcmp fpcmp it re a b) = false /\ std_le (spec_pcmp fpcmp it re a b) = false /\
+    std_gt (spec_pcmp fpcmp it re a b) = false /\ std_ge (spec_pcmp fpcmp it re a b) = false /\
+    std_ne (spec_eq feq it a b) = true.
+Proof. exact incomparable_operators. Qed.
+
+Check C07_operators :
+  forall (fval : Type) (feq : fval -> fval -> bool) (fpcmp : fval -> fval -> option comparison)
+         (it : item) (re : rust_enum) (a b : value fval),
+    incomparable_value it a = true \/ incomparable_value it b = true ->
+    std_lt (spec_pcmp fpcmp it re a b) = false /\ std_le (spec_pcmp fpcmp it re a b) = false /\
+    std_gt (spec_pcmp fpcmp it re a b) = false /\ std_ge (spec_pcmp fpcmp it re a b) = false /\
+    std_ne (spec_eq feq it a b) = true.
+Print Assumptions C07_operators.
+
 (* the generated code on such operands, for every accepted item *)
 Theorem C07_generated :
   forall (fval : Type) (feq : fval -> fval -> bool) (fpcmp : fval -> fval -> option comparison)
